@@ -217,6 +217,39 @@ pub struct StepResult {
     pub committed: bool,
 }
 
+/// The transaction an action stands for (None for environment actions, which edit the store).
+pub fn tx_for(w: &World, s: &Store, a: &Action) -> Option<Tx> {
+    match a {
+        Action::Advance { .. } | Action::AdvanceStale { .. } | Action::SetPrice { .. } => None,
+        Action::TokenlessRepay { u, .. } => {
+            let signer = default_signer(w, a).unwrap();
+            let acct = cur_account(w, s, *u);
+            let rem = w.risk_metas(s, &acct, None, None);
+            let i = user_ix(w, s, a, signer).unwrap();
+            let mut ixs = vec![];
+            let mut signers = vec![signer];
+            if s.get(&ix::liq_record_key(&acct)).is_none() {
+                ixs.push(ix::init_liq_record(acct, w.payer));
+                signers.push(w.payer);
+            }
+            let bkey = match a {
+                Action::TokenlessRepay { b, .. } => w.banks[*b].key,
+                _ => unreachable!(),
+            };
+            let rem_end = w.risk_metas(s, &acct, None, Some(bkey));
+            ixs.extend([ix::start_deleverage(w.group, acct, signer, rem.clone()), i, ix::end_deleverage(w.group, acct, signer, rem_end)]);
+            Some(Tx::new(ixs, &signers))
+        }
+        _ => {
+            let signer = default_signer(w, a)?;
+            let i = user_ix(w, s, a, signer)?;
+            let mut signers = vec![signer];
+            signers.extend(extra_signers(w, s, a));
+            Some(Tx::one(i, &signers))
+        }
+    }
+}
+
 /// Apply an action to the store (environment actions always "commit").
 pub fn apply(w: &World, s: &mut Store, a: &Action) -> StepResult {
     match a {
